@@ -66,3 +66,13 @@ func (voteSet *VoteSet) VerifC18ClaimCount() int {
 	defer voteSet.mtx.Unlock()
 	return len(voteSet.peerMaj23s)*1000 + len(voteSet.votesByBlock)
 }
+
+// VerifC18ClaimCounts: number of peer majority claims and of per-block tallies of the vote set.
+func (voteSet *VoteSet) VerifC18ClaimCounts() (claims int, blockTallies int) {
+	if voteSet == nil {
+		return 0, 0
+	}
+	voteSet.mtx.Lock()
+	defer voteSet.mtx.Unlock()
+	return len(voteSet.peerMaj23s), len(voteSet.votesByBlock)
+}
